@@ -110,6 +110,9 @@ def srcOverlapsSpare (d s : ObsView) : Bool :=
 
 def colsVals (cols : List (Option (List Int))) : List (List Int) := cols.map (·.getD [])
 
+/-- the properties say *that* an operation panics, not with which value: any panic counts -/
+def isPanicOutcome (o : String) : Bool := o.startsWith "panic"
+
 /-- the number of samples of channel `c` inside the buffer (the last frame may be filled partially):
 the number of `i` with `ch·i + c < len` -/
 def chanCount (u : ObsView) (c : Nat) : Nat :=
@@ -180,7 +183,7 @@ def check (op : OpObs) (pre post : Views) (seen : Array Bool) : List Fail :=
         mk ["C12"] "set-ok" s!"i={i} outcome={outcome}" (outcome == "ok") ++
         frameFails ["C12"] "set-visible-exactly" pre post seen [(u.blk, u.off + i.toNat, v)] (detail := s!"i={i} v={v}")
       else
-        mk ["C12"] "set-index-panics" s!"i={i} len={u.len} outcome={outcome}" (outcome == "panic index") ++
+        mk ["C12"] "set-index-panics" s!"i={i} len={u.len} outcome={outcome}" (isPanicOutcome outcome) ++
         frameFails ["C12"] "set-panic-unchanged" pre post seen []
   | .get vid i r =>
     match view pre vid with
@@ -192,7 +195,7 @@ def check (op : OpObs) (pre post : Views) (seen : Array Bool) : List Fail :=
     match view pre dst, view pre src with
     | some d, some s =>
       if d.ch != s.ch then
-        mk ["C15", "C03"] "append-mismatch-panics" s!"ch={d.ch}/{s.ch} outcome={outcome}" (outcome == "panic diffChannels") ++
+        mk ["C15", "C03"] "append-mismatch-panics" s!"ch={d.ch}/{s.ch} outcome={outcome}" (isPanicOutcome outcome) ++
         frameFails ["C15"] "append-mismatch-unchanged" pre post seen []
       else
         let n := s.len
@@ -243,7 +246,7 @@ def check (op : OpObs) (pre post : Views) (seen : Array Bool) : List Fail :=
       if 0 ≤ pos ∧ pos < u.len then
         mk ["C14"] "chan-set-ok" s!"outcome={outcome}" (outcome == "ok") ++
         frameFails ["C14"] "chan-set-that-sample-only" pre post seen [(u.blk, u.off + pos.toNat, v)] (detail := s!"c={c} i={i} v={v}")
-      else mk ["C14"] "chan-set-index-panics" s!"outcome={outcome}" (outcome == "panic index") ++
+      else mk ["C14"] "chan-set-index-panics" s!"outcome={outcome}" (isPanicOutcome outcome) ++
         frameFails ["C14"] "chan-set-panic-unchanged" pre post seen []
     | none => []
   | .chanShape vid _ a l k =>
@@ -282,7 +285,7 @@ def check (op : OpObs) (pre post : Views) (seen : Array Bool) : List Fail :=
     | none => []
     | some u =>
       if u.ch != cols.length then
-        mk ["C15", "C01"] "striped-mismatch-panics" s!"ch={u.ch} slices={cols.length} outcome={outcome}" (outcome == "panic diffChannels") ++
+        mk ["C15", "C01"] "striped-mismatch-panics" s!"ch={u.ch} slices={cols.length} outcome={outcome}" (isPanicOutcome outcome) ++
         mk ["C15"] "striped-mismatch-caller-unchanged" "" (after == cols) ++
         frameFails ["C15"] "striped-mismatch-unchanged" pre post seen []
       else
@@ -308,7 +311,7 @@ def check (op : OpObs) (pre post : Views) (seen : Array Bool) : List Fail :=
     | none => []
     | some u =>
       if u.ch != cols.length then
-        mk ["C15", "C01"] "striped-mismatch-panics" s!"ch={u.ch} slices={cols.length} outcome={outcome}" (outcome == "panic diffChannels") ++
+        mk ["C15", "C01"] "striped-mismatch-panics" s!"ch={u.ch} slices={cols.length} outcome={outcome}" (isPanicOutcome outcome) ++
         mk ["C15"] "striped-mismatch-caller-unchanged" "" (after == cols) ++
         frameFails ["C15"] "striped-mismatch-unchanged" pre post seen []
       else
@@ -330,7 +333,7 @@ def check (op : OpObs) (pre post : Views) (seen : Array Bool) : List Fail :=
     match view pre src, view pre dst with
     | some s, some d =>
       if s.ch != d.ch then
-        mk ["C15", "C05"] "conv-mismatch-panics" s!"fn={fn} ch={s.ch}/{d.ch} outcome={outcome}" (outcome == "panic diffChannels") ++
+        mk ["C15", "C05"] "conv-mismatch-panics" s!"fn={fn} ch={s.ch}/{d.ch} outcome={outcome}" (isPanicOutcome outcome) ++
         frameFails ["C15"] "conv-mismatch-unchanged" pre post seen []
       else
         let props := if degenerate s || degenerate d then ["C05", "C20"] else ["C05"]
@@ -377,7 +380,7 @@ def check (op : OpObs) (pre post : Views) (seen : Array Bool) : List Fail :=
     | none => []
     | some u =>
       if u.cap != cap * ch then
-        mk ["C15"] "put-mismatch-panics" s!"cap={u.cap} pool={cap * ch} outcome={outcome}" (outcome == "panic diffCapacity") ++
+        mk ["C15"] "put-mismatch-panics" s!"cap={u.cap} pool={cap * ch} outcome={outcome}" (isPanicOutcome outcome) ++
         frameFails ["C15"] "put-mismatch-unchanged" pre post seen []
       else mk (if ch == 0 || cap == 0 then ["C10", "C20"] else ["C10"]) "put-no-panic"
         s!"pool=ch{ch}/K{cap} buffer-cap={u.cap} outcome={outcome}" (outcome == "ok")
